@@ -97,6 +97,11 @@ def suites(rng, tier):
                                  "repay_amounts": G.RP_L, "withdraw_amounts": G.WD_C, "fees": G.FEES, "prices": G.PRICES}})
     lines = [end_case(rng) for _ in range(n["end"])]
     out.append({"suite": "txend", "name": "txend", "lines": lines, "distribution": {"cases": len(lines)}})
+    from props import c09 as C09
+    k = {"quick": 500, "thorough": 8000, "search": 3000}[tier]
+    out.append({"suite": "oraclerisk", "name": "receivership-assessment-with-bad-oracles",
+                "lines": [C09.gen_risk_case(rng, "valid" if rng.random() < 0.5 else "malformed", {}) for _ in range(k)],
+                "distribution": {"cases": k, "note": "start_liquidation / start_deleverage open a bracket only on an account that is unhealthy at MAINTENANCE: the Maintenance valuation (real RiskEngine) of positions whose oracle is stale, foreign, wrongly owned or too uncertain must FAIL, never count the collateral as worth nothing (C09's generator; only the Maintenance verdicts are judged here)"}})
     return out
 
 
@@ -136,6 +141,9 @@ def end_case(rng):
 
 def nontrivial(suite, case, impl):
     try:
+        if suite == "oraclerisk":
+            from props import c09 as C09
+            return C09.nontrivial(suite, case, impl)
         if suite == "txval":
             p = G.parse_val(case, impl)
             return "OK" in p["VL"] or "OK" in p["VD"] or (p["first"] == "OK" and p["last"] == "OK")
@@ -290,4 +298,10 @@ def oracle(suite, case, impl):
         return oracle_sim(case, impl)
     if suite == "txend":
         return oracle_end(case, impl)
+    if suite == "oraclerisk":
+        from props import c09 as C09
+        v = C09.oracle(suite, case, impl)
+        if v and v["what"].startswith("Maintenance"):
+            return {"key": "receivership-opened-on-" + v["key"], "what": v["what"]}
+        return None
     return None
